@@ -16,7 +16,7 @@ func init() { register("C05", "exploration", runC05) }
 type accepted struct {
 	v1      *types.Transaction
 	v2      *types.V2Transaction
-	parents map[types.Hash256]bool // own parents plus those of pooled ancestors at acceptance
+	parents map[types.Hash256]bool // own (direct) parents
 	step    int
 }
 
@@ -33,6 +33,7 @@ type c05Hist struct {
 	t     *chainlab.Tree
 	a     *chainlab.Auditor
 	acc   map[types.TransactionID]*accepted
+	all   map[types.TransactionID]*accepted // every set member ever accepted (ancestor lookup)
 	maker map[types.Hash256]types.TransactionID // element id -> accepted txn creating it
 	conf  map[*chainlab.Node]map[types.TransactionID]bool
 	step  int
@@ -69,19 +70,13 @@ func (h *c05Hist) recordAccepted(v1 []types.Transaction, v2 []types.V2Transactio
 		a.parents = map[types.Hash256]bool{}
 		for _, p := range parents {
 			a.parents[p] = true
-			if mk, ok := h.maker[p]; ok {
-				if anc := h.acc[mk]; anc != nil {
-					for q := range anc.parents {
-						a.parents[q] = true
-					}
-				}
-			}
 		}
 		for _, c := range creates {
 			h.maker[c] = id
 		}
 		a.step = h.step
 		h.acc[id] = a
+		h.all[id] = a
 	}
 	for i := range v1 {
 		t := chainlab.DeepCopyTxn(v1[i])
@@ -91,6 +86,24 @@ func (h *c05Hist) recordAccepted(v1 []types.Transaction, v2 []types.V2Transactio
 		t := v2[i].DeepCopy()
 		add(t.ID(), &accepted{v2: &t}, chainlab.V2Parents(t), chainlab.V2Creates(t))
 	}
+}
+
+// justified reports whether an input of the transaction, or of an unconfirmed
+// pooled ancestor it depends on, was spent or reverted on the chain during the
+// step. An ancestor that is confirmed on the tip no longer counts: its outputs
+// are chain elements, and only their own spending or reverting is a reason.
+func (h *c05Hist) justified(a *accepted, touched map[types.Hash256]bool, tip *chainlab.Node, depth int) bool {
+	for p := range a.parents {
+		if touched[p] {
+			return true
+		}
+		if mk, ok := h.maker[p]; ok && depth < 64 && !h.confirmedOn(tip, mk) {
+			if anc := h.all[mk]; anc != nil && h.justified(anc, touched, tip, depth+1) {
+				return true
+			}
+		}
+	}
+	return false
 }
 
 // check runs the pool oracles after a step. touched are the ids spent by
@@ -131,14 +144,7 @@ func (h *c05Hist) check(touched map[types.Hash256]bool) {
 			delete(h.acc, id)
 			continue
 		}
-		just := false
-		for p := range a.parents {
-			if touched[p] {
-				just = true
-				break
-			}
-		}
-		if just {
+		if h.justified(a, touched, tip, 0) {
 			r.Count("retention:justified-input-spent-or-reverted", 1)
 			delete(h.acc, id)
 			continue
@@ -247,7 +253,7 @@ func runC05History(r *mon.Run, stream uint64) {
 		return
 	}
 	h := &c05Hist{r: r, cs: c05Case{Stream: stream, Params: p}, t: t, a: chainlab.NewAuditor(t, node),
-		acc: map[types.TransactionID]*accepted{}, maker: map[types.Hash256]types.TransactionID{}, conf: map[*chainlab.Node]map[types.TransactionID]bool{}}
+		acc: map[types.TransactionID]*accepted{}, all: map[types.TransactionID]*accepted{}, maker: map[types.Hash256]types.TransactionID{}, conf: map[*chainlab.Node]map[types.TransactionID]bool{}}
 	cm := node.CM
 	prof := chainlab.Profile{MaxTxns: 3}
 	tip := t.Root
